@@ -88,3 +88,34 @@ def policy_matrix_of(policy_table, S, A):
             except BaseException:
                 m[i, j] = 0.0
     return m
+
+
+def build_pomdp(sp, explicit=False):
+    from msdm.core.pomdp import TabularPOMDP
+
+    class SpecPOMDP(TabularPOMDP):
+        def __init__(self):
+            self.sp = sp
+            self.discount_rate = sp.gamma
+            if explicit:
+                self._state_list = tuple(sp.states)
+                self._action_list = tuple(sp.action_universe())
+
+        def next_state_dist(self, s, a):
+            return make_dist(sp.P[(s, a)], sp.kind[(s, a)])
+
+        def reward(self, s, a, ns):
+            return sp.R.get((s, a, ns), 0.0)
+
+        def actions(self, s):
+            return sp.acts[s]
+
+        def initial_state_dist(self):
+            return make_dist(sp.init, sp.init_kind)
+
+        def is_absorbing(self, s):
+            return s in sp.flag
+
+        def observation_dist(self, a, ns):
+            return DictDistribution({o: p for o, p in sp.O[(a, ns)]})
+    return SpecPOMDP()
